@@ -19,6 +19,7 @@ package executor
 
 import (
 	"fmt"
+	"strconv"
 	"strings"
 
 	"seata.apache.org/seata-go/pkg/datasource/sql/datasource"
@@ -66,6 +67,19 @@ func compareRows(tableMeta types.TableMeta, oldRows []types.RowImage, newRows []
 	return true, nil
 }
 
+// primaryKeyText renders a primary-key value the same way whatever Go type carries it: an image
+// decoded from the undo log holds numbers as float64 (1e+06 under %v) while a row read from the
+// database holds int64 (1000000).
+func primaryKeyText(v interface{}) string {
+	switch x := v.(type) {
+	case float64:
+		return strconv.FormatFloat(x, 'f', -1, 64)
+	case float32:
+		return strconv.FormatFloat(float64(x), 'f', -1, 32)
+	}
+	return fmt.Sprintf("%v", v)
+}
+
 func rowListToMap(rows []types.RowImage, primaryKeyList []string) map[string]map[string]interface{} {
 	rowMap := make(map[string]map[string]interface{}, 0)
 	for _, row := range rows {
@@ -80,7 +94,7 @@ func rowListToMap(rows []types.RowImage, primaryKeyList []string) map[string]map
 						rowKey += "_##$$_"
 					}
 					// todo make value more accurate
-					rowKey = fmt.Sprintf("%v%v", rowKey, column.GetActualValue())
+					rowKey = rowKey + primaryKeyText(column.GetActualValue())
 					firstUnderline = true
 				}
 			}
